@@ -5,6 +5,7 @@ use crate::dd_decode;
 use crate::e1;
 use crate::e2::E2;
 use crate::e2_arp;
+use crate::e2_cksum;
 use crate::e2_dhcp;
 use crate::e2_dns;
 use crate::e2_link;
@@ -23,10 +24,11 @@ static C20: E2<e2_dns::Dns> = E2(e2_dns::Dns);
 static C15: E2<e2_dhcp::Dhcp> = E2(e2_dhcp::Dhcp);
 static C16: E2<e2_route::Route> = E2(e2_route::Route);
 static C14: E2<e2_malformed::Malformed> = E2(e2_malformed::Malformed);
+static C18: E2<e2_cksum::Cksum> = E2(e2_cksum::Cksum);
 static C04: E2<e2_udp::UdpBind> = E2(e2_udp::UdpBind);
 
 pub fn all() -> Vec<&'static dyn Scenario> {
-    vec![&e1::C01, &e1::C03, &e1::C12, &e1::C17, &e3::C11, &C05, &C04, &C06, &C02, &C13, &C20, &C15, &e2_dhcp::C15_GEN, &C16, &C14, &dd_decode::C14_DEC]
+    vec![&e1::C01, &e1::C03, &e1::C12, &e1::C17, &e3::C11, &C05, &C04, &C06, &C02, &C13, &C20, &C15, &e2_dhcp::C15_GEN, &C16, &C18, &C14, &dd_decode::C14_DEC]
 }
 
 pub fn get(name: &str) -> Option<&'static dyn Scenario> {
